@@ -9,9 +9,9 @@ core schema): same nesting, list order, key set, strings, booleans, nulls and nu
 decoder rejects (truncated / corrupted ones, the empty JSON file), integers that do not fit an i64 and unknown include types
 are build errors.  Integer-vs-float is observed inside the language with `is "int"` / `is "float"`.
 
-The value of `x` is observed through `out yaml` (integers are exact there; the final `end = 0` keeps C03's KNOWN
-yaml-final-keep-scalar-gains-newline away) or, if PyYAML is missing, through `out json` with integers kept below 2^53
-(C03's recorded JSON-integer finding).  Bounded: exactly the generated documents of the given seed; never counted as proved."""
+The value of `x` is observed through `out yaml` (integers are exact there; the final `end = 0` keeps the observation
+independent of how a document-final block scalar is chomped, C03's business) or, if PyYAML is missing, through `out json`
+with integers kept below 2^53 (C03's recorded JSON-integer finding).  Bounded: exactly the generated documents of the given seed; never counted as proved."""
 import base64
 import json
 import math
